@@ -15,8 +15,19 @@ string-level oracle written from the statement:
   refusal       a row that names a position >= L (> L for insertions), an example >= N or a
                 character >= A cannot be honoured: the call must raise.
 
-Observation is done two ways: `func` = a recorder that returns its input (exactly "the X / X_var
-reaching func"), and the default func=predict with a parameter-free identity torch module.
+Observation is done four ways ('via'): `func` = a recorder that returns its input (exactly "the X /
+X_var reaching func"); the default func=predict with a parameter-free identity torch module;
+'rec-extras' = the recorder with args / additional_func_kwargs / **kwargs supplied (the func that is
+applied to the edited sequences is the caller's func WITH the caller's extras: both calls must receive
+the same model, the same args and additional_func_kwargs+kwargs merged, nothing else differing but the
+sequences -- switch: ASSERT_EXTRAS_FORWARDED); 'predict-args' = func=predict with a two-input identity
+module that remembers the extra input it was given, batch_size routed through additional_func_kwargs.
+
+Input representation variants (the statement quantifies over sequences and variant lists, not over
+how the caller stores them): the row table as int64 or int32; X as int8 / uint8 / int32 / int64 /
+bool / float16 / float32 / float64; X contiguous, a transposed view, a strided view, a batch-strided
+view, or ONE reference expanded (stride 0) over the batch -- the usual "many variants of one locus"
+call.
 
 Sequences are mostly *position-identifying*: alphabet of N*L symbols, example e holds symbol e*L+p
 at position p, so the decoded output says exactly which original column of which example sits
@@ -24,7 +35,8 @@ where; random sequences over 4 letters are used as well.
 
 Deliberately NOT asserted (the statement is silent): negative positions / examples (python
 wrap-around), insertion at coordinate j == L (append; the pinned tree raises, a correct append is
-accepted too), repeated insertion coordinates, dtype of the tensors reaching func.
+accepted too), repeated insertion coordinates, dtype / memory layout of the tensors reaching func,
+whether the caller's X or row table are left untouched, row tables of a dtype torch cannot index with.
 Lenient on purpose: rows naming the same position of the same example with DIFFERENT characters
 cannot all be honoured; raising, or a one-hot result holding any one of the named characters there,
 is accepted -- a column that is not one-hot is not a string-level edit and is reported.
@@ -37,15 +49,22 @@ import torch
 from tangermeme import variant_effect as VE
 
 SCOPE = {
-    'quick': 'deletions: 1 example, lengths 4-14, EVERY subset of <=3 positions x both trim sides (exhaustive); 2 examples, lengths 4-7, every '
-             'pair of subsets of <=3 positions x both sides (exhaustive); 2500 seeded random batches of 1-4 x lengths 4-14 biased to the '
-             'trimmed edge, incl. repeated rows and shuffled row order.  insertions: 1 example, lengths 4-14, every single coordinate and every '
-             'pair of distinct coordinates x both sides (exhaustive, characters rotated); 1500 random batches of 1-4 with 0-3 distinct coordinates '
-             'per example.  substitutions: every (position, character) single row for lengths 4-6 (exhaustive); 1500 random batches incl. '
-             'repeated rows, empty row lists, conflicting rows.  refusal probes: every kind x {position, example, character} out of range.',
+    'quick': 'options first: every kind x 4 observation modes (recorder / predict / recorder with args+additional_func_kwargs+kwargs checked on both calls / '
+             'predict with a 2-input module and batch_size routed through additional_func_kwargs) x row table int64|int32 x 8 X dtypes x 5 X memory layouts '
+             '(contiguous, transposed view, strided view, batch-strided view, one reference expanded over the batch), 1-4 examples.  '
+             'deletions: 1 example, lengths 4-14, EVERY subset of <=3 positions x both trim sides (exhaustive); 2 examples, lengths 4-7, every '
+             'pair of subsets of <=3 positions x both sides (exhaustive); 3 examples length 4 every triple of subsets of <=2 positions, 4 examples length 4 every '
+             'quadruple of subsets of <=1 position (exhaustive); 2500 seeded random batches of 1-4 x lengths 4-14 biased to the '
+             'trimmed edge, incl. repeated rows, shuffled row order, same-reference batches.  insertions: 1 example, lengths 4-14, every single coordinate and every '
+             'pair of distinct coordinates x both sides (exhaustive, characters rotated), ALL L coordinates at once and every L-1 of them; 2 examples, lengths 4-6, every pair of '
+             'subsets of <=2 coordinates x both sides x row order (example-major / example 1 first / interleaved); 1500 random batches of 1-4 with 0-3 distinct coordinates '
+             'per example + 300 with 4..L coordinates in some example.  substitutions: every (position, character) single row for lengths 4-6 (exhaustive); every ordered pair of rows '
+             'on position-identifying sequences, 2-3 examples, lengths 4-5 (exhaustive); 1500 random batches incl. '
+             'repeated rows, empty row lists, conflicting rows (2-3 characters, any example), position-identifying sequences.  refusal probes: every kind x {position, example, '
+             'character} out of range, + 300 random honourable tables with ONE row (any example, any place in the table) pushed out of range, all observation modes.',
     'thorough': 'as quick, plus deletions: 2 examples, lengths 4-12, every pair of subsets of <=3 positions x both sides (exhaustive, run last: a note says where the budget ended it); 3 examples, '
-                'lengths 4-5 every triple of subsets of <=2 positions; insertions: every triple of distinct coordinates for lengths 4-10; '
-                '40000 / 20000 / 20000 random deletion / insertion / substitution batches',
+                'length 5 every triple of subsets of <=2 positions; insertions: every triple of distinct coordinates for lengths 4-10; 2 examples lengths 4-8 every pair of subsets of <=2 coordinates x 3 row orders; '
+                '40000 / 20000+3000 / 20000 random deletion / insertion / substitution batches; 3000 random corrupted tables',
 }
 
 
@@ -54,6 +73,16 @@ SCOPE = {
 # key and can be switched off here without touching the rest of the driver.
 ASSERT_CONFLICTING_SUBSTITUTIONS = True    # same (example, position), different characters -> two-hot column on the pinned tree
 ASSERT_INSERTION_EXAMPLE_RANGE = True      # insertion row naming example >= N is silently dropped on the pinned tree
+# "apply func to ... the edited sequences" / "'before' is func on the reference": func is the caller's
+# func with the caller's model, args and keyword extras; a call that loses them applies another
+# function.  Own finding key (func-extras-not-forwarded); switch off here if that reading is too strong.
+ASSERT_EXTRAS_FORWARDED = True
+
+torch.set_num_threads(1)
+
+XDTYPES = ['int8', 'uint8', 'int32', 'int64', 'bool', 'float16', 'float32', 'float64']
+XLAYOUTS = ['contig', 'tview', 'strided', 'bview', 'expand']
+VIAS = ['rec', 'predict', 'rec-extras', 'predict-args']
 
 
 # ----------------------------------------------------------------------------- observers
@@ -62,20 +91,47 @@ class _Identity(torch.nn.Module):
         return X
 
 
+class _IdentityArgs(torch.nn.Module):
+    """forward(X, a) -> X; remembers every `a` it was handed (predict slices args batch by batch)"""
+
+    def __init__(self):
+        super().__init__()
+        self.seen = []
+
+    def forward(self, X, a):
+        self.seen.append(a.detach().clone())
+        return X
+
+
 class _Recorder:
     """func(model, X, args=None, **kwargs) -> X; remembers what it was given"""
 
     def __init__(self):
         self.seen = []
+        self.extras = []
 
     def __call__(self, model, X, args=None, **kwargs):
         self.seen.append(X.clone())
+        self.extras.append((model, args, dict(kwargs)))
         return X
 
 
-def _encode(seqs, A, dtype):
+def _encode(seqs, A, dtype, layout='contig'):
     N, L = len(seqs), len(seqs[0])
-    X = torch.zeros(N, A, L, dtype=getattr(torch, dtype))
+    dt = getattr(torch, dtype)
+    if layout == 'expand' and all(s == seqs[0] for s in seqs):
+        base = torch.zeros(1, A, L, dtype=dt)
+        for p, c in enumerate(seqs[0]):
+            base[0, c, p] = 1
+        return base.expand(N, -1, -1)                                 # one reference, stride 0 over the batch
+    if layout == 'tview':
+        X = torch.zeros(N, L, A, dtype=dt).permute(0, 2, 1)           # alphabet axis is the fastest one in memory
+    elif layout == 'strided':
+        X = torch.zeros(N, A, 2 * L + 1, dtype=dt)[:, :, 1::2]
+    elif layout in ('bview', 'expand'):
+        X = torch.zeros(2 * N, A, L, dtype=dt)[::2]
+    else:
+        X = torch.zeros(N, A, L, dtype=dt)
     for n, s in enumerate(seqs):
         for p, c in enumerate(s):
             X[n, c, p] = 1
@@ -84,6 +140,7 @@ def _encode(seqs, A, dtype):
 
 def _decode(T):
     """(N, A, L') tensor -> list of lists of symbol indices, -1 where the column is not one-hot"""
+    T = T.detach().to(torch.float64)
     ok = ((T == 0) | (T == 1)).all(dim=1) & (T.sum(dim=1) == 1)
     idx = T.argmax(dim=1)
     return torch.where(ok, idx, torch.full_like(idx, -1)).tolist()
@@ -153,12 +210,24 @@ def oracle_ins(seqs, rows, left, A):
 
 
 # ----------------------------------------------------------------------------- the check
+_EXTRA_AFK = {'alpha': 3, 'start': 1}      # routed through additional_func_kwargs ('start' also is a name used inside ersatz)
+_EXTRA_KW = {'gamma': (1, 2), 'verbose': False}
+
+
+def _same_args(got, exp):
+    if got is exp:
+        return True
+    if not isinstance(got, (tuple, list)) or len(got) != len(exp):
+        return False
+    return all(isinstance(g, torch.Tensor) and g.shape == e.shape and torch.equal(g, e) for g, e in zip(got, exp))
+
+
 def check_variant(case):
     kind, A, seqs, rows, left = case['kind'], case['A'], case['seqs'], case['rows'], case.get('left', False)
     N, L = len(seqs), len(seqs[0])
-    X = _encode(seqs, A, case.get('xdtype', 'int8'))
+    X = _encode(seqs, A, case.get('xdtype', 'int8'), case.get('xlayout', 'contig'))
     ncol = 2 if kind == 'del' else 3
-    R = torch.tensor(rows, dtype=torch.int64).reshape(-1, ncol)
+    R = torch.tensor(rows, dtype=getattr(torch, case.get('rdtype', 'int64'))).reshape(-1, ncol)
     if kind == 'sub':
         honour, before, after = oracle_sub(seqs, rows, A)
         status = 'skip' if honour is None else ('either' if honour == 'either' else ('ok' if honour else 'refuse'))
@@ -170,17 +239,27 @@ def check_variant(case):
     if status == 'skip':
         return []
     rec = _Recorder()
-    if case.get('via') == 'predict':
+    via = case.get('via', 'rec')
+    model = _Identity()
+    extra_args = None
+    if via == 'predict':
         kw = dict(device='cpu', batch_size=case.get('batch_size', 32))
+    elif via == 'predict-args':
+        model = _IdentityArgs()
+        extra_args = (torch.arange(N, dtype=torch.float32).reshape(N, 1) + 0.5,)
+        kw = dict(args=extra_args, device='cpu', additional_func_kwargs={'batch_size': case.get('batch_size', 32)})
+    elif via == 'rec-extras':
+        extra_args = (torch.arange(2 * N, dtype=torch.float32).reshape(N, 2), torch.arange(N))
+        kw = dict(func=rec, args=extra_args, additional_func_kwargs=dict(_EXTRA_AFK), **_EXTRA_KW)
     else:
         kw = dict(func=rec)
     try:
         if kind == 'sub':
-            yb, ya = VE.substitution_effect(_Identity(), X, R, **kw)
+            yb, ya = VE.substitution_effect(model, X, R, **kw)
         elif kind == 'del':
-            yb, ya = VE.deletion_effect(_Identity(), X, R, left=left, **kw)
+            yb, ya = VE.deletion_effect(model, X, R, left=left, **kw)
         else:
-            yb, ya = VE.insertion_effect(_Identity(), X, R, left=left, **kw)
+            yb, ya = VE.insertion_effect(model, X, R, left=left, **kw)
     except Exception as e:
         if status == 'ok':
             return ['%s_effect raised an exception on a variant list that can be honoured (every row in range): %s (%s)' % (
@@ -191,11 +270,30 @@ def check_variant(case):
     if status == 'refuse':
         return ['%s_effect returned although the variant list cannot be honoured (a position, example or character out of range, or two different characters for one position): after=%s'
                 % (name, _show(_decode(ya)) if isinstance(ya, torch.Tensor) and ya.dim() == 3 else type(ya).__name__)]
-    if case.get('via') != 'predict':
+    if via in ('rec', 'rec-extras'):
         if len(rec.seen) != 2:
             return ['%s_effect called func %d times, expected before and after' % (name, len(rec.seen))]
         if not (torch.equal(rec.seen[0], yb) and torch.equal(rec.seen[1], ya)):
             out.append('%s_effect: returned values are not (func(before), func(after)) in this order' % name)
+    if via == 'rec-extras' and ASSERT_EXTRAS_FORWARDED:
+        want = dict(_EXTRA_AFK)
+        want.update(_EXTRA_KW)
+        for label, (m_, a_, k_) in zip(('before', 'after'), rec.extras):
+            bad = []
+            if m_ is not model:
+                bad.append('model')
+            if not _same_args(a_, extra_args):
+                bad.append('args')
+            if k_ != want:
+                bad.append('keyword arguments %s instead of additional_func_kwargs + kwargs %s' % (sorted(k_), sorted(want)))
+            if bad:
+                out.append('EXTRAS %s_effect: the %s call of func did not receive the caller\'s %s' % (name, label, ', '.join(bad)))
+    if via == 'predict-args' and ASSERT_EXTRAS_FORWARDED:
+        got_a = torch.cat(model.seen) if model.seen else torch.zeros(0, 1)
+        exp_a = torch.cat([extra_args[0], extra_args[0]])
+        if got_a.shape != exp_a.shape or not torch.equal(got_a, exp_a):
+            out.append('EXTRAS %s_effect via predict: the model did not receive the caller\'s args once per example for the before and the after pass (got %s)'
+                       % (name, got_a.flatten().tolist()))
     for label, got_t, exp in (('before', yb, before), ('after', ya, after)):
         if not isinstance(got_t, torch.Tensor) or got_t.dim() != 3 or got_t.shape[0] != N or got_t.shape[1] != A:
             out.append('%s_effect: the %s tensor reaching func has shape %s' % (name, label, tuple(got_t.shape) if isinstance(got_t, torch.Tensor) else None))
@@ -259,7 +357,7 @@ def _do(rep, case, key, section, sample=False, nontrivial=True):
     if viol:
         f = _classify(case, viol)
         for v in viol[:2]:
-            rep.violation(v, case, finding=f)
+            rep.violation(v, case, finding='func-extras-not-forwarded' if v.startswith('EXTRAS') else f)
 
 
 # ----------------------------------------------------------------------------- enumeration
@@ -278,11 +376,40 @@ def _subsets(L, kmax):
             yield c
 
 
-def _mk(kind, A, seqs, rows, left=False, via='rec', xdtype='int8', batch_size=32):
+def _mk(kind, A, seqs, rows, left=False, via='rec', xdtype='int8', batch_size=32, rdtype='int64', xlayout='contig'):
     c = {'kind': kind, 'A': A, 'seqs': seqs, 'rows': [list(r) for r in rows], 'left': left, 'via': via, 'xdtype': xdtype}
-    if via == 'predict':
+    if via in ('predict', 'predict-args'):
         c['batch_size'] = batch_size
+    if rdtype != 'int64':
+        c['rdtype'] = rdtype
+    if xlayout != 'contig':
+        c['xlayout'] = xlayout
     return c
+
+
+def _same_ref(g, N, L, ident):
+    """the same reference in every example (the 'many variants of one locus' batch)"""
+    if ident:
+        return L, [list(range(L)) for _ in range(N)]
+    s = [g.randrange(4) for _ in range(L)]
+    return 4, [list(s) for _ in range(N)]
+
+
+def _opts(g):
+    """random representation options for the random batches: (via, xdtype, batch_size, rdtype, xlayout)"""
+    via = g.choice(['rec', 'rec', 'rec', 'predict', 'rec-extras', 'predict-args'])
+    return (via, g.choice(XDTYPES) if g.random() < 0.5 else g.choice(['int8', 'float32']), g.randint(1, 5),
+            'int32' if g.random() < 0.3 else 'int64', g.choice(XLAYOUTS) if g.random() < 0.3 else 'contig')
+
+
+def _rand_rows(g, kind, N, L, A, left):
+    """an honourable random table for `kind` (distinct positions per example)"""
+    rows = []
+    for n in range(N):
+        P = g.sample(range(L), g.choice([0, 1, 1, 2, 3]))
+        rows += [((n, p) if kind == 'del' else (n, p, g.randrange(A))) for p in P]
+    g.shuffle(rows)
+    return rows
 
 
 def _edge_subset(g, L, kmax, left):
@@ -329,6 +456,31 @@ def run(rep):
     def via():
         return 'predict' if rot % 5 == 0 else 'rec'
 
+    # ============ options: observation modes x row-table dtype x X dtype x X layout, every kind (cheap, first)
+    k = 0
+    for kind in ('del', 'ins', 'sub'):
+        for v in VIAS:
+            for rdtype in ('int64', 'int32'):
+                combos = [(xd, 'contig') for xd in XDTYPES] + [('int8', xl) for xl in XLAYOUTS[1:]] + [('float32', xl) for xl in XLAYOUTS[1:]]
+                for xdtype, xlayout in combos:
+                    for rep_i in range(2):
+                        k += 1
+                        N, L, left = 1 + (k % 4), g.randint(4, 14), (k // 4) % 2 == 1 and kind != 'sub'
+                        if xlayout == 'expand':
+                            A, seqs = _same_ref(g, N, L, ident=rep_i == 0)
+                        else:
+                            A, seqs = _ident_seqs(N, L) if rep_i == 0 else _rand_seqs(g, N, L)
+                        if kind == 'ins':
+                            A += 1
+                        rows = _rand_rows(g, kind, N, L, A, left)
+                        if not rows:
+                            rows = [(N - 1, L - 1) if kind == 'del' else (N - 1, L - 1, A - 1)]
+                        _do(rep, _mk(kind, A, seqs, rows, left, v, xdtype, g.randint(1, 5), rdtype, xlayout), ('op', k), 'options-%s' % kind,
+                            sample=(kind == 'ins' and v == 'rec-extras' and rdtype == 'int32' and xdtype == 'float16' and rep_i == 0))
+    if rep.out_of_time():
+        rep.note('time budget reached in the options block')
+        return
+
     # ============ deletions
     # one example: every subset of <= 3 positions, both sides
     for L in range(4, 15):
@@ -344,6 +496,22 @@ def run(rep):
     rep.mark_exhaustive('deletion_effect, 1 example, lengths 4-14, every subset of <=3 positions, both trim sides')
     # two examples: every pair of subsets (thorough continues with longer sequences at the very end)
     done_pair = _del_pairs(rep, 4, 7, 3)
+    # three / four examples, length 4 (small but exhaustive: all examples interact through the common total)
+    for Nn, kmax in ((3, 2), (4, 1)):
+        A, seqs = _ident_seqs(Nn, 4)
+        subs = list(_subsets(4, kmax))
+        for Ds in itertools.product(subs, repeat=Nn):
+            for left in (False, True):
+                rot += 1
+                rows = [(n, p) for n, D in enumerate(Ds) for p in D]
+                if rot % 3 == 0:
+                    rows.reverse()
+                _do(rep, _mk('del', A, seqs, rows, left, via()), ('d%d' % Nn, 4, Ds, left), 'deletion-%d-examples-exhaustive' % Nn, nontrivial=bool(rows))
+        if rep.out_of_time():
+            rep.note('time budget reached in the exhaustive deletion triples / quadruples')
+            break
+    else:
+        rep.mark_exhaustive('deletion_effect, 3 examples, length 4, every triple of subsets of <=2 positions; 4 examples, length 4, every quadruple of subsets of <=1 position, both trim sides')
     # random batches
     n_del = 40000 if thorough else 2500
     for k in range(n_del):
@@ -351,17 +519,18 @@ def run(rep):
             rep.note('time budget reached after %d random deletion batches' % k)
             break
         N, L, left = g.randint(1, 4), g.randint(4, 14), g.random() < 0.5
-        A, seqs = _ident_seqs(N, L) if g.random() < 0.7 else _rand_seqs(g, N, L)
+        r = g.random()
+        A, seqs = _ident_seqs(N, L) if r < 0.6 else (_rand_seqs(g, N, L) if r < 0.85 else _same_ref(g, N, L, g.random() < 0.5))
         rows = []
         for n in range(N):
             D = _edge_subset(g, L, 3, left)
             rows += [(n, p) for p in D]
-            if D and g.random() < 0.1:
-                rows.append((n, g.choice(D)))          # the same position named twice: still one deletion
+            if D and g.random() < 0.15:
+                rows += [(n, g.choice(D)) for _ in range(g.randint(1, 3))]   # the same position named again: still one deletion
         g.shuffle(rows)
         rot += 1
-        _do(rep, _mk('del', A, seqs, rows, left, via(), g.choice(['int8', 'float32', 'int64']), g.randint(1, 5)), ('dr', k), 'deletion-random',
-            nontrivial=bool(rows))
+        o = _opts(g)
+        _do(rep, _mk('del', A, seqs, rows, left, *o), ('dr', k), 'deletion-random', nontrivial=bool(rows))
 
     # ============ insertions
     Ltrip = 10 if thorough else 0
@@ -385,17 +554,66 @@ def run(rep):
             return
     rep.mark_exhaustive('insertion_effect, 1 example, lengths 4-14, every coordinate and every pair of distinct coordinates%s, both trim sides'
                         % (' (triples up to length %d)' % Ltrip if Ltrip else ''))
+    # every coordinate at once, and every L-1 of them ("insertions at every coordinate")
+    for L in range(4, 15):
+        A, seqs = _ident_seqs(1, L)
+        A += 3
+        for J in [tuple(range(L))] + [tuple(j for j in range(L) if j != o) for o in range(L)]:
+            for left in (False, True):
+                rot += 1
+                order = list(J)
+                if rot % 3 == 1:
+                    order.reverse()
+                elif rot % 3 == 2:
+                    g.shuffle(order)
+                rows = [(0, j, A - 3 + (i + rot) % 3) for i, j in enumerate(order)]
+                _do(rep, _mk('ins', A, seqs, rows, left, via()), ('iall', L, J, left), 'insertion-all-coordinates',
+                    sample=(L == 4 and len(J) == 4 and left))
+    rep.mark_exhaustive('insertion_effect, 1 example, lengths 4-14, all L coordinates at once and every L-1 of them, both trim sides')
+    # two examples: every pair of subsets of <= 2 coordinates x both sides x row order
+    L2 = 8 if thorough else 6
+    done_i2 = 3
+    for L in range(4, L2 + 1):
+        A, seqs = _ident_seqs(2, L)
+        A += 3
+        subs = list(_subsets(L, 2))
+        for J0 in subs:
+            for J1 in subs:
+                for left in (False, True):
+                    r0 = [(0, j, A - 3 + (i + j) % 3) for i, j in enumerate(J0)]
+                    r1 = [(1, j, A - 3 + (i + j + 1) % 3) for i, j in enumerate(J1)]
+                    orders = [r0 + r1, r1 + r0[::-1], [x for pr in itertools.zip_longest(r1[::-1], r0) for x in pr if x is not None]]
+                    if not (thorough or L == 4):
+                        rot += 1
+                        orders = [orders[rot % 3]]
+                    for oi, rows in enumerate(orders):
+                        rot += 1
+                        _do(rep, _mk('ins', A, seqs, rows, left, via()), ('i2', L, J0, J1, left, oi if len(orders) > 1 else -1), 'insertion-2-examples-exhaustive',
+                            sample=(L == 4 and J0 == (1, 3) and J1 == (0,) and left and oi == 1), nontrivial=bool(rows))
+            if rep.out_of_time():
+                break
+        if rep.out_of_time():
+            rep.note('time budget reached in the exhaustive insertion pairs at length %d' % L)
+            break
+        done_i2 = L
+    if done_i2 >= 4:
+        rep.mark_exhaustive('insertion_effect, 2 examples, lengths 4-%d, every pair of subsets of <=2 distinct coordinates, both trim sides (row order: all three at length 4%s)'
+                            % (done_i2, ' and above' if thorough else ', rotated above'))
     n_ins = 20000 if thorough else 1500
     for k in range(n_ins):
         if rep.out_of_time():
             rep.note('time budget reached after %d random insertion batches' % k)
             break
         N, L, left = g.randint(1, 4), g.randint(4, 14), g.random() < 0.5
-        if g.random() < 0.6:
+        r = g.random()
+        if r < 0.55:
             A, seqs = _ident_seqs(N, L)
             A += 2
-        else:
+        elif r < 0.85:
             A, seqs = _rand_seqs(g, N, L)
+        else:
+            A, seqs = _same_ref(g, N, L, g.random() < 0.5)
+            A += 1
         rows = []
         for n in range(N):
             kk = g.choice([0, 1, 1, 2, 3])
@@ -404,7 +622,24 @@ def run(rep):
                 rows.append((n, j, g.randrange(A)))
         g.shuffle(rows)
         rot += 1
-        _do(rep, _mk('ins', A, seqs, rows, left, via(), g.choice(['int8', 'float32']), g.randint(1, 5)), ('ir', k), 'insertion-random', nontrivial=bool(rows))
+        o = _opts(g)
+        _do(rep, _mk('ins', A, seqs, rows, left, *o), ('ir', k), 'insertion-random', nontrivial=bool(rows))
+    # many coordinates in one example (4..L), the others 0-3
+    for k in range(3000 if thorough else 300):
+        if rep.out_of_time():
+            rep.note('time budget reached after %d random many-coordinate insertion batches' % k)
+            break
+        N, L, left = g.randint(1, 4), g.randint(4, 14), g.random() < 0.5
+        A, seqs = _ident_seqs(N, L)
+        A += 2
+        big = g.randrange(N)
+        rows = []
+        for n in range(N):
+            kk = g.randint(4, L) if n == big or g.random() < 0.3 else g.choice([0, 1, 2, 3])
+            rows += [(n, j, g.randrange(A)) for j in g.sample(range(L), kk)]
+        g.shuffle(rows)
+        o = _opts(g)
+        _do(rep, _mk('ins', A, seqs, rows, left, *o), ('im', k), 'insertion-random-many-coordinates')
 
     # ============ substitutions
     for L in range(4, 7):
@@ -416,13 +651,36 @@ def run(rep):
                     _do(rep, _mk('sub', A, seqs, [(n, p, c)], False, via()), ('s1', L, n, p, c), 'substitution-single-exhaustive',
                         sample=(L == 4 and n == 1 and p == 3 and c == 0))
     rep.mark_exhaustive('substitution_effect, 2 examples, lengths 4-6, every single (example, position, character) row')
+    # every ordered pair of rows on position-identifying sequences (which column of which example was overwritten is visible)
+    for N, L in ((2, 4), (3, 4), (2, 5), (3, 5)):
+        A, seqs = _ident_seqs(N, L)
+        A += 2
+        cells = [(n, p) for n in range(N) for p in range(L)]
+        for c0 in cells:
+            for c1 in cells:
+                if c0 == c1:
+                    continue
+                rot += 1
+                # new symbol, or the symbol another cell (possibly of the other example) holds
+                ch0 = A - 2 if rot % 2 else seqs[c1[0]][c1[1]]
+                ch1 = A - 1 if rot % 3 else seqs[c0[0]][c0[1]]
+                _do(rep, _mk('sub', A, seqs, [c0 + (ch0,), c1 + (ch1,)], False, via(), rdtype='int32' if rot % 4 == 0 else 'int64'),
+                    ('s2', N, L, c0, c1), 'substitution-row-pairs-exhaustive', sample=(N == 2 and L == 4 and c0 == (1, 0) and c1 == (0, 3)))
+    rep.mark_exhaustive('substitution_effect, 2-3 examples, lengths 4-5, every ordered pair of rows naming two different (example, position) cells')
     n_sub = 20000 if thorough else 1500
     for k in range(n_sub):
         if rep.out_of_time():
             rep.note('time budget reached after %d random substitution batches' % k)
             break
         N, L = g.randint(1, 4), g.randint(4, 14)
-        A, seqs = _rand_seqs(g, N, L, g.choice([2, 4, 4, 5]))
+        r = g.random()
+        if r < 0.6:
+            A, seqs = _rand_seqs(g, N, L, g.choice([2, 4, 4, 5]))
+        elif r < 0.85:
+            A, seqs = _ident_seqs(N, L)
+            A += 1
+        else:
+            A, seqs = _same_ref(g, N, L, g.random() < 0.5)
         rows = []
         for n in range(N):
             for p in g.sample(range(L), g.choice([0, 1, 2, 3, L])):
@@ -430,13 +688,19 @@ def run(rep):
         r = g.random()
         if rows and r < 0.25:                            # identical rows repeated
             rows += [g.choice(rows) for _ in range(g.randint(1, 3))]
-        elif rows and r < 0.33:                          # conflicting rows: same position, another character
+        elif rows and r < 0.35:                          # conflicting rows: same position, another character (sometimes a third one; sometimes the reference character)
             b, p, c = g.choice(rows)
             rows.append((b, p, (c + g.randint(1, A - 1)) % A))
+            if A > 2 and g.random() < 0.3:
+                rows.append((b, p, g.choice([x for x in range(A) if x != c])))
+            if g.random() < 0.3:
+                rows.append((b, p, seqs[b][p]))
+                if seqs[b][p] == c and len(set(x[2] for x in rows if x[:2] == (b, p))) == 1:
+                    rows.append((b, p, (c + 1) % A))
         g.shuffle(rows)
         rot += 1
-        _do(rep, _mk('sub', A, seqs, rows, False, via(), g.choice(['int8', 'float32']), g.randint(1, 5)), ('sr', k), 'substitution-random',
-            nontrivial=bool(rows))
+        o = _opts(g)
+        _do(rep, _mk('sub', A, seqs, rows, False, *o), ('sr', k), 'substitution-random', nontrivial=bool(rows))
 
     # ============ refusal probes: rows that cannot be honoured
     for L in (4, 9, 14):
@@ -452,9 +716,34 @@ def run(rep):
                     rows = rows + ([(0, 3, 0)] if kind != 'del' else [(0, 3)])     # plus one honest row
                     _do(rep, _mk(kind, A, seqs, rows, left), ('rf', L, N, left, kind, tuple(rows)), 'refusal-probes')
 
+    # random honourable tables with ONE row pushed out of range (any example, any place in the table), all observation modes
+    for k in range(3000 if thorough else 300):
+        if rep.out_of_time():
+            rep.note('time budget reached after %d random corrupted tables' % k)
+            break
+        kind = ('del', 'ins', 'sub')[k % 3]
+        N, L, left = g.randint(1, 4), g.randint(4, 14), g.random() < 0.5 and kind != 'sub'
+        A, seqs = _rand_seqs(g, N, L) if g.random() < 0.5 else _ident_seqs(N, L)
+        rows = _rand_rows(g, kind, N, L, A, left)
+        n = g.randrange(N)
+        what = g.choice(['pos', 'pos', 'ex'] if kind == 'del' else ['pos', 'pos', 'ex', 'chr'])
+        if what == 'pos':
+            bad = [n, L + (1 if kind == 'ins' else 0) + g.choice([0, 0, 1, 3])]
+        elif what == 'ex':
+            bad = [N + g.choice([0, 0, 1, 2]), g.randrange(L)]
+        else:
+            bad = [n, g.randrange(L)]
+        if kind != 'del':
+            bad.append(A + g.choice([0, 0, 1]) if what == 'chr' else g.randrange(A))
+        if kind != 'del' and what != 'pos':
+            rows = [x for x in rows if not (x[0] == bad[0] and x[1] == bad[1])]     # the only thing wrong with the table is the one field
+        rows.insert(g.randint(0, len(rows)), tuple(bad))
+        o = _opts(g)
+        _do(rep, _mk(kind, A, seqs, rows, left, *o), ('rfr', k), 'refusal-random-corrupted')
+
     # ============ thorough only, last because it is the largest block
     if thorough:
-        for L in (4, 5):
+        for L in (5,):
             A, seqs = _ident_seqs(3, L)
             subs = list(_subsets(L, 2))
             for D0, D1, D2 in itertools.product(subs, repeat=3):
@@ -466,7 +755,7 @@ def run(rep):
                 rep.note('time budget reached in the exhaustive deletion triples')
                 break
         else:
-            rep.mark_exhaustive('deletion_effect, 3 examples, lengths 4-5, every triple of subsets of <=2 positions')
+            rep.mark_exhaustive('deletion_effect, 3 examples, length 5, every triple of subsets of <=2 positions')
         if done_pair == 7 and not rep.out_of_time():
             done_pair = _del_pairs(rep, 8, 12, done_pair)
     rep.mark_exhaustive('deletion_effect, 2 examples, lengths 4-%d, every pair of subsets of <=3 positions, both trim sides' % done_pair)
